@@ -61,9 +61,13 @@ Common(a, b) == LET e == IF a[2] > b[2] THEN a[2] ELSE b[2] IN
 
 IntRes(n) == IF Abs(n) >= Lim THEN Unspec ELSE VInt(n)
 
+\* integers around 2^53 (TLC's integers are 32 bits wide): VBig(k) stands for 2^53 + k, e = 53 marks it.  Only equality,
+\* ordering and truthiness are specified for them
+VBig(k) == Val("int", k, 53, "")
+IsBig(v) == v.t = "int" /\ v.e = 53
 \* Arith(op, a, b, la, lb): la / lb are the table lengths of a / b when they are tables
 Arith(op, a, b, la, lb) ==
-  IF IsUnspec(a) \/ IsUnspec(b) \/ IsTok(a) \/ IsTok(b) THEN Unspec
+  IF IsUnspec(a) \/ IsUnspec(b) \/ IsTok(a) \/ IsTok(b) \/ IsBig(a) \/ IsBig(b) THEN Unspec
   ELSE IF a.t = "real" \/ b.t = "real" \/ (op = "Div" /\ (a.t = "int" \/ b.t = "int")) THEN
     LET c == Common(AsDy(a, la), AsDy(b, lb)) IN
     IF Abs(c[1]) >= Lim \/ Abs(c[2]) >= Lim THEN Unspec
@@ -88,13 +92,16 @@ Arith(op, a, b, la, lb) ==
 \* ---- ordering of two values when at least one is a number, or both are numbers after
 \* coercion; result "LT" / "EQ" / "GT"
 NumCmp(a, b, la, lb) ==
-  LET c == Common(AsDy(a, la), AsDy(b, lb)) IN
-  IF c[1] < c[2] THEN "LT" ELSE IF c[1] > c[2] THEN "GT" ELSE "EQ"
+  IF IsBig(a) /\ IsBig(b) THEN (IF a.i < b.i THEN "LT" ELSE IF a.i > b.i THEN "GT" ELSE "EQ")
+  ELSE IF IsBig(a) THEN "GT"         \* larger than every other modelled number, length and nil
+  ELSE IF IsBig(b) THEN "LT"
+  ELSE LET c == Common(AsDy(a, la), AsDy(b, lb)) IN
+       IF c[1] < c[2] THEN "LT" ELSE IF c[1] > c[2] THEN "GT" ELSE "EQ"
 
 \* truthiness; tables need their length
 Truthy(v, tablen) ==
   CASE v.t = "nil" -> FALSE
-    [] v.t = "int" -> v.i # 0
+    [] v.t = "int" -> v.i # 0 \/ v.e # 0
     [] v.t = "real" -> v.i # 0          \* tokens are filtered by the caller
     [] v.t = "str" -> v.i # 0
     [] v.t = "ref" -> tablen # 0
